@@ -28,16 +28,19 @@ const modPath = "git.sr.ht/~adrian-blx/psa-dhcp/"
 // topologically sorted by calls.
 var targets = map[string][]string{
 	"lib/layer":           {"setV4Checksum", "ipv4csum", "udp4csum", "pseudohdrcsum", "UDP.Assemble", "DecodeUDP", "IPv4.Assemble", "DecodeIPv4", "ARP.Assemble", "DecodeARP"},
-	"lib/server/ipdb/uip": {"Uip.ToV4", "Uip.Valid"},
+	"lib/server/ipdb/uip": {"Uip.ToV4", "Uip.Valid", "Uip.String"},
 	"lib/server/ipdb": {"fromTo", "IPDB.toUip", "IPDB.InManagedRange", "IPDB.SetDynamicRange", "IPDB.DisableDynamic",
 		"IPDB.LookupClientByDuid", "IPDB.AddPermanentClient", "IPDB.UpdateClient", "IPDB.FindIP"},
 	"lib/server/replies":  {"assembleUdp", "dstFromFlag", "AssembleOffer", "AssembleACK", "AssembleNACK"},
-	"lib/server":          {"duidFromHwAddr", "server.getDuid", "server.handleMsg", "server.handleDiscover", "server.handleRequest", "server.sendNACK", "server.sendMsg"},
+	"lib/server/ipdb/duid": {"Duid.String"},
+	"lib/server/ipdb/clients": {"NewClients", "Clients.Lookup", "Clients.InjectPermanent", "Clients.Inject", "Clients.injectInternal",
+		"Clients.SetLease", "Clients.Expire", "client.Uip", "client.LeasedUntil"},
+	"lib/server":          {"duidFromHwAddr", "server.dhcpOptions", "server.getDuid", "server.handleMsg", "server.handleDiscover", "server.handleRequest", "server.sendNACK", "server.sendMsg"},
 	"lib/client/verify":   {"verifyCommon", "verifyGenAck", "VerifyOffer", "VerifySelectingAck", "VerifyRenewingAck", "VerifyRebindingAck"},
 	"lib/client/msgtmpl":  {"tmpl.request"},
 	"lib/dhcpmsg": {"Decode", "Message.Assemble", "setU16Int", "setU32Int", "setIPv4", "OptionType", "OptionHostname", "OptionDomainName",
 		"OptionServerIdentifier", "OptionRequestedIP", "OptionRouter", "OptionDNS", "OptionNTP", "optIP", "OptionMaxMessageSize",
-		"OptionInterfaceMTU", "OptionClientIdentifier", "OptionParametersList", "OptionSubnetMask",
+		"OptionInterfaceMTU", "OptionClientIdentifier", "OptionParametersList", "OptionSubnetMask", "OptionIPAddressLeaseDuration",
 		"DecodeOptions", "toUint8", "toUint16", "toDuration", "toString", "toNetmask", "toV4", "toV4A"},
 }
 
@@ -51,6 +54,8 @@ type X struct {
 	globals []string
 	gseen   map[*types.Var]string
 	envOps  []envOp
+	heapUsed bool
+	curPkg  string // package whose code is being translated (decides how *clients.client is represented)
 }
 
 type FuncInfo struct {
@@ -72,6 +77,7 @@ type FuncInfo struct {
 	oracles   []oracle      // external nondeterministic values (math/rand) turned into trailing parameters
 	closure   bool          // the Go function returns a func value (the translation is its uncurried form)
 	effectful bool          // uses the environment `E` (lives in StateT σ R)
+	heapful   bool          // dereferences / allocates records of the clients table (lives in StateT Heap R)
 }
 
 type oracle struct{ name, typ string }
@@ -137,6 +143,8 @@ func main() {
 	// translate bodies first (discovers the struct types that are needed)
 	fis := x.sorted()
 	for _, fi := range fis {
+		x.curPkg = fi.pkg.PkgPath
+		curPkgForEffects = fi.pkg.PkgPath
 		x.translate(fi)
 	}
 	for _, n := range x.order {
@@ -144,6 +152,9 @@ func main() {
 	}
 	for _, g := range x.globals {
 		sb.WriteString(g)
+	}
+	if x.heapUsed {
+		sb.WriteString("/-- The records of the clients table: a `*client` is nil or an index into this list (allocation appends). -/\nabbrev Heap := List clients.client\n\n")
 	}
 	sb.WriteString(x.envDef())
 	var report []string
